@@ -370,7 +370,9 @@ def _scratch():
 
 
 def observe_exit_del():
-    """which of flush()/close() AbstractWriter.__exit__ / __del__ call on self, in order"""
+    """which of flush()/close() AbstractWriter.__exit__ calls on self, in order -- when the with-block is left normally
+    and when it is left by an exception (Exception subclass, KeyboardInterrupt) -- and what __del__ calls.
+    -> (normal exit, exceptional exit, del)"""
     from flow.record.adapter import AbstractWriter
     log = []
 
@@ -384,6 +386,9 @@ def observe_exit_del():
         def close(self):
             log.append("MClose")
 
+    class _Boom(Exception):
+        pass
+
     p = Probe()
     del log[:]
     AbstractWriter.__exit__(p, None, None, None)
@@ -394,14 +399,32 @@ def observe_exit_del():
     for name, calls in (("__exit__", ex), ("__del__", de)):
         if any(c not in ("MFlush", "MClose") for c in calls):
             raise Unsupported("AbstractWriter.%s calls %s on the writer" % (name, calls))
-    # through a with-block / a real del, too
+    # through a real with-block, too
     q = Probe()
     del log[:]
     with q:
         pass
     if log != ex:
         raise Unsupported("leaving a with-block does %s, AbstractWriter.__exit__ does %s" % (log, ex))
-    return ex, de
+    # ... and when the block is left by an exception
+    exc_logs = []
+    for exc in (_Boom("x"), ValueError("x"), KeyboardInterrupt(), SystemExit(1), GeneratorExit()):
+        q = Probe()
+        del log[:]
+        swallowed = True
+        try:
+            with q:
+                raise exc
+        except BaseException as e:  # noqa
+            swallowed = e is not exc
+        if swallowed:
+            raise Unsupported("AbstractWriter.__exit__ swallows or replaces %r" % (exc,))
+        exc_logs.append(list(log))
+        if any(c not in ("MFlush", "MClose") for c in log):
+            raise Unsupported("AbstractWriter.__exit__ (exception in flight) calls %s on the writer" % (log,))
+    if any(l != exc_logs[0] for l in exc_logs):
+        raise Unsupported("AbstractWriter.__exit__ treats exceptions differently: %s" % exc_logs)
+    return ex, exc_logs[0], de
 
 
 def observe_avro(tmp):
@@ -765,7 +788,7 @@ def shapes():
     notes = []
     tmp = _scratch()
     try:
-        exit_calls, del_calls = observe_exit_del()
+        exit_calls, exit_exc_calls, del_calls = observe_exit_del()
         avro_flush_placeholder, avro_close_placeholder, avro_close_flushes = observe_avro(tmp)
         stream_close_flushes = observe_stream_close(tmp)
         ge, steps = observe_split_roll()
@@ -809,7 +832,7 @@ def shapes():
                  (rot["stamp_spec"], rot["name_format"], rot["counter"], rot["counter_format"]), rot_src)
 
     _SHAPES.update(dict(
-        exit=exit_calls, del_=del_calls, avro_close_flushes=avro_close_flushes,
+        exit=exit_calls, exit_exc=exit_exc_calls, del_=del_calls, avro_close_flushes=avro_close_flushes,
         avro_flush_placeholder=avro_flush_placeholder, avro_close_placeholder=avro_close_placeholder,
         split_stdout_netloc=stdout_netloc, split_stdout_path=stdout_path,
         rotate_counter=rot["counter"], rotated_name_counter_format=rot["counter_format"],
@@ -859,6 +882,8 @@ def gen_writers():
         return "None" if v is None else "(Some %s)" % clist([cstr(x) for x in v])
     out += "     sh_split_stdout_netloc := %s;\n     sh_split_stdout_path := %s |}.\n" % (
         optvals(sh["split_stdout_netloc"]), optvals(sh["split_stdout_path"]))
+    out = out.replace("sh_split_stdout_path := %s |}." % optvals(sh["split_stdout_path"]),
+                      "sh_split_stdout_path := %s;\n     sh_exit_exc := %s |}." % (optvals(sh["split_stdout_path"]), clist(sh["exit_exc"])))
     write_if_changed(GEN / "Gen_writers.v", out)
 
 
